@@ -1,0 +1,79 @@
+// Copyright (c) DataStax, Inc.
+//
+// Licensed under the Apache License, Version 2.0 (the "License");
+// you may not use this file except in compliance with the License.
+// You may obtain a copy of the License at
+//
+//      http://www.apache.org/licenses/LICENSE-2.0
+//
+// Unless required by applicable law or agreed to in writing, software
+// distributed under the License is distributed on an "AS IS" BASIS,
+// WITHOUT WARRANTIES OR CONDITIONS OF ANY KIND, either express or implied.
+// See the License for the specific language governing permissions and
+// limitations under the License.
+
+package parser
+
+import "strings"
+
+// stripComments replaces CQL comments (`-- ...` and `// ...` up to the end of the line, `/* ... */`) with a single
+// space. The lexer has no rule for comments, and to the backend a comment is whitespace, so without this a statement
+// such as `/* c */ SELECT * FROM system.local` is not recognized as a handled system query (or as idempotent). String
+// literals ('...' and $$...$$) and quoted identifiers ("...") are copied verbatim.
+func stripComments(data string) string {
+	if !strings.Contains(data, "--") && !strings.Contains(data, "//") && !strings.Contains(data, "/*") {
+		return data
+	}
+	var sb strings.Builder
+	sb.Grow(len(data))
+	for i := 0; i < len(data); {
+		c := data[i]
+		var next byte
+		if i+1 < len(data) {
+			next = data[i+1]
+		}
+		switch {
+		case c == '\'' || c == '"':
+			// Copy through the closing quote; a doubled quote is an escaped quote.
+			j := i + 1
+			for j < len(data) {
+				if data[j] == c {
+					if j+1 < len(data) && data[j+1] == c {
+						j += 2
+						continue
+					}
+					j++
+					break
+				}
+				j++
+			}
+			sb.WriteString(data[i:j])
+			i = j
+		case c == '$' && next == '$':
+			j := len(data)
+			if end := strings.Index(data[i+2:], "$$"); end >= 0 {
+				j = i + 2 + end + 2
+			}
+			sb.WriteString(data[i:j])
+			i = j
+		case (c == '-' && next == '-') || (c == '/' && next == '/'):
+			j := i + 2
+			for j < len(data) && data[j] != '\n' && data[j] != '\r' {
+				j++
+			}
+			sb.WriteByte(' ')
+			i = j
+		case c == '/' && next == '*':
+			j := len(data)
+			if end := strings.Index(data[i+2:], "*/"); end >= 0 {
+				j = i + 2 + end + 2
+			}
+			sb.WriteByte(' ')
+			i = j
+		default:
+			sb.WriteByte(c)
+			i++
+		}
+	}
+	return sb.String()
+}
